@@ -312,7 +312,8 @@ def main(argv):
     import pyteal as pt
     import pyteal.compiler.compiler as cc
 
-    ck.run_proofs("Props/C12.v", ["Proofs/ConstantsLitProof.v", "Proofs/ConstantsProof.v", "Proofs/ConstantsSim.v"])
+    ck.run_proofs("Props/C12.v", ["Proofs/ConstantsLitProof.v", "Proofs/ConstantsProof.v", "Proofs/ConstantsSim.v"],
+                  extra_targets=["Extract/Main_c12.vo", "Extract/Main.vo"])
     model = Model("c12")
     avm = Model("main")
     oracle = Oracle(model)
@@ -391,11 +392,51 @@ def main(argv):
         if len(ck.samples) < 3 and len(recipe) in (5, 6, 7) and status == "same":
             ck.sample({"components": [list(map(repr, c[1:])) for c in recipe], "real_output": real_lines, "oracle": status})
 
+    def to_recipe(js):
+        return [tuple(tuple(a) if isinstance(a, list) else a for a in c) for c in js]
+
+    # ---------------- replay of a recorded violation ----------------
+    if args.replay:
+        rec = json.load(open(args.replay))
+        print("replaying %s: %s" % (args.replay, rec.get("what", "")[:200]))
+        if rec.get("recipe"):
+            recipe = to_recipe(rec["recipe"])
+            r = call_real(real_ccb, recipe)
+            print("components :", [" ".join(map(str, c[1:])) for c in recipe])
+            print("real output:", r[1] if r[0] == "ok" else r)
+            if r[0] == "ok":
+                status, detail = oracle_on_recipe(recipe, r[1])
+                fid = attribute(status, detail, recipe)
+                print("site oracle:", status, detail)
+                if fid == "violation" or (fid is not None and not note_known(fid, "")):
+                    print("VIOLATION property=C12 replay=%s" % args.replay)
+                    return 1
+            print("not reproduced")
+            return 0
+        if rec.get("spelling") is not None:
+            s_ = rec["spelling"]
+            r = call_real(real_extract, "byte", (s_,))
+            d = model.ask((S("decode-bytes"), s_))
+            print("constants.py:", r, " assembler:", d)
+            if r[0] == "ok" and d[0] == S("some") and r[1][1] != d[1]:
+                print("VIOLATION property=C12 replay=%s" % args.replay)
+                return 1
+            print("not reproduced")
+            return 0
+        if rec.get("plain") and rec.get("with_option"):
+            print("recorded program pair (regenerate with the same VERIF_SEED to re-run):")
+            print(rec["plain"][:1500])
+            print("----")
+            print(rec["with_option"][:1500])
+            return 1
+        print("replay file carries no input (broken: %s)" % rec.get("broken"))
+        return 1
+
     # ---------------- corpus of earlier minimised failures ----------------
     corpus_path = os.path.join(VERIF, "harness", "corpus", "c12.json")
     if os.path.exists(corpus_path):
         for rec in json.load(open(corpus_path)):
-            check_recipe([tuple(tuple(a) if isinstance(a, list) else a for a in c) for c in rec], "corpus")
+            check_recipe(to_recipe(rec), "corpus")
 
     # ---------------- A. extract*Value vs model, and vs the assembler's reading ----------------
     ext_mismatch = []
@@ -441,7 +482,7 @@ def main(argv):
         for y in special:
             for z in (special if thorough else ["\\", '"', "a"]):
                 ctor_spellings.append(pt.Bytes(x + y + z).__teal__(opts)[0].ops[0].args[0])
-    n_rand = 1500 if thorough else 300
+    n_rand = 6000 if thorough else 300
     for _ in range(n_rand):
         n = rng.randrange(0, 12)
         b = bytes(rng.choice([rng.randrange(256), 34, 92, 61, 47]) for _ in range(n))
@@ -503,7 +544,7 @@ def main(argv):
     ck.coverage["exhaustive_small"] = {"alphabet": [repr(a[1:]) for a in alphabet], "max_length": maxlen, "lists": n_exh}
 
     # frequency ties / top-four / >=128 threshold: k distinct small and large ints with chosen multiplicities
-    for _ in range(300 if thorough else 80):
+    for _ in range(2500 if thorough else 200):
         k = rng.randrange(3, 9)
         vals = rng.sample([0, 1, 2, 5, 100, 126, 127, 128, 129, 300, "TMPL_INT_0", 1 << 40], k)
         mult = [rng.choice([1, 2, 2, 3]) for _ in vals]
@@ -515,7 +556,7 @@ def main(argv):
         rng.shuffle(seq)
         check_recipe(seq, "ties-bytes")
 
-    n_random = 2500 if thorough else 450
+    n_random = 25000 if thorough else 1200
     for i in range(n_random):
         length = rng.choice([0, 1, 2, 3, 5, 8, 13, 21, 34, 60])
         mal = 0.0 if i % 3 else rng.choice([0.05, 0.2])
@@ -532,7 +573,7 @@ def main(argv):
     prog_fail = []
     n_prog = 0
     versions = list(range(3, 11))
-    per_version = 14 if thorough else 4
+    per_version = 60 if thorough else 8
     run_hist = {}
     for version in versions:
         for j in range(per_version + 1):
@@ -667,7 +708,8 @@ def main(argv):
     ck.coverage["input_distribution"] = hist
     ck.coverage["known_finding_cases"] = known_hits
     ck.coverage["text_cases_mismatching"] = len(text_mismatch) + len(ext_mismatch)
-    for f in sem_fail[:5]:
+    reported = set()
+    for f in sem_fail[:8]:
         small = f["recipe"]
         if f.get("found_by") is None:
             def fails2(rec):
@@ -679,6 +721,9 @@ def main(argv):
                 return a == "violation" or (a is not None and f.get("finding_class") == a)
             if fails2(small):
                 small = shrink(small, fails2)
+        if repr(small) in reported:
+            continue
+        reported.add(repr(small))
         f = dict(f)
         f["recipe"] = small
         f["real"] = call_real(real_ccb, small)[1:] if small else f.get("real")
@@ -697,7 +742,7 @@ def main(argv):
                      {"kind": "correspondence", "broken": "text equality createConstantBlocks / extract*Value vs Comp/Constants.v", "first": first}, no_failing_input=True)
     if not ck.proof_ok and not real_failure:
         ck.violation("proof obligation broken: Props/C12.v or its Proofs/ files no longer check",
-                     {"kind": "proof", "broken": "C12 theorems", "log": ck.proof_log[-1500:]}, no_failing_input=True)
+                     {"kind": "proof", "broken": "C12 theorems", "forbidden_scan": ck.coverage.get("forbidden_scan"), "log": ck.proof_log[-1500:]}, no_failing_input=True)
     ck.coverage["disagreements_checked"] = len(text_mismatch) + len(ext_mismatch) + len(sem_fail) + len(prog_fail) + len(agree_fail)
     model.close()
     avm.close()
